@@ -174,6 +174,29 @@ def run_fileformat(fmt, ctx_values, src_text, inplace, encoding):
         return {'ok': True}, f.read().decode(e_in)
 
 
+def third_party_roundtrip(fmt, value):
+    """The codec hypothesis `dec (enc d) = d` checked directly on the third-party pair the steps use
+    (ruamel round-trip dumper with pypyr's indent settings -> safe loader; tomli_w -> tomllib;
+    json.dump(indent=2, ensure_ascii=False) -> json.load). True / False / None (serialiser raised)."""
+    try:
+        if fmt == 'json':
+            text = json.dumps(value, indent=2, ensure_ascii=False)
+        elif fmt == 'yaml':
+            import ruamel.yaml
+            y = ruamel.yaml.YAML(typ='rt', pure=True)
+            y.indent(mapping=2, sequence=4, offset=2)
+            s = io.StringIO()
+            y.dump(value, s)
+            text = s.getvalue()
+        else:
+            import tomli_w
+            text = tomli_w.dumps(value)
+        back = plain(load(fmt, text))
+    except Exception:
+        return None
+    return sort_wire(enc(back)) == sort_wire(enc(value))
+
+
 def clean_dir():
     for name in os.listdir('.'):
         p = os.path.join('.', name)
